@@ -202,12 +202,14 @@ var checkLinTicks = ev.Register("linear-ticks", func(c *LinCase) ev.Outcome {
 		}
 	}
 	if !found {
-		if major != nil && llo <= lhi {
+		// "nothing": no ticks - whether as nil or as empty slices is not part of the statement
+		if len(major) != 0 && llo <= lhi {
 			return ev.Fail("Ticks returned %v although no level in [%d,%d] fits Max=%d", major, llo, lhi, c.OMax)
 		}
 		return ev.OK(false, append(classes, "no-level-fits")...)
 	}
-	if major == nil {
+	if len(major) == 0 && fwd.CountTicks(lvl) > 0 {
+		// (a fitting level that holds no tick at all yields no ticks too: nil or empty, either is fine)
 		return ev.Fail("Ticks returned nothing although level %d has %d <= %d ticks", lvl, fwd.CountTicks(lvl), c.OMax)
 	}
 	want := fwd.TicksAtLevel(lvl).([]float64)
@@ -437,7 +439,7 @@ var checkLogTicks = ev.Register("log-ticks", func(c *LogCase) ev.Outcome {
 				}
 			}
 		}
-	} else if major != nil && !(c.MinLevel == 0 && c.MaxLevel == 0) {
+	} else if len(major) != 0 && !(c.MinLevel == 0 && c.MaxLevel == 0) {
 		// with explicit limits entirely among sane levels, failure must be reported
 		allSane := true
 		for l := c.MinLevel; l <= c.MaxLevel; l++ {
